@@ -124,6 +124,27 @@ fn build_program(x: &[f64], raw: &[RawOp], n_outs: usize) -> Program {
                 }
             }
         }
+        // `x ** N` with a Python int beyond the i32 range (the binding must fall back to powf): the
+        // base is moved next to 1 so that the power stays finite
+        if matches!(op.code, 26 | 27) && op.n.rem_euclid(4) == 0 {
+            let a = r.map[r.map.len() - 1];
+            let big: [f64; 8] = [2147483648.0, 2147483649.0, 4294967296.0, 4294967299.0, -2147483649.0, -4294967296.0, 1099511627781.0, 9007199254740992.0];
+            let nn = big[(op.n.rem_euclid(32) / 4) as usize];
+            let scale = 0.5 / nn.abs();
+            let va = r.val[a];
+            if va.is_finite() && va.abs() <= 8.0 {
+                r.ops.push(Op::BinS(Bin::Mul, false, a, scale));
+                r.val.push(va * scale);
+                let t = r.ops.len() - 1;
+                r.ops.push(Op::BinS(Bin::Add, false, t, 1.0));
+                r.val.push(va * scale + 1.0);
+                let b = r.ops.len() - 1;
+                r.ops.push(Op::Powf(b, nn));
+                r.val.push((va * scale + 1.0).powf(nn));
+                let m = r.map.len() - 1;
+                r.map[m] = r.ops.len() - 1;
+            }
+        }
         if op.code == 0 && op.n.rem_euclid(3) == 1 {
             // replace recip by a spherical Bessel function in a third of the cases
             if let Op::Un(name, a) = r.ops[last].clone() {
@@ -167,7 +188,10 @@ fn render_py(p: &Program, ins: &[String], nested: bool, style: u8, indent: &str)
                 }
             }
             Op::Powf(a, n) => {
-                if (style as usize + i) % 2 == 0 {
+                if n.fract() == 0.0 && n.abs() >= 2147483648.0 {
+                    // a Python int that does not fit into i32
+                    format!("(n{a} ** {})", *n as i64)
+                } else if (style as usize + i) % 2 == 0 {
                     format!("(n{a} ** {})", pyf(*n))
                 } else {
                     format!("n{a}.powf({})", pyf(*n))
@@ -614,6 +638,9 @@ impl Property for C17 {
         };
         match r {
             Ok(nontrivial) => {
+                if case.raw.iter().any(|o| matches!(o.code % 52, 26 | 27) && o.n.rem_euclid(4) == 0) {
+                    st.class("program may contain `**` with a Python int beyond the i32 range");
+                }
                 if nontrivial && st.wants_sample() {
                     st.sample(|| json!({"mode": if case.mode % 18 < 8 { DIRECT[(case.mode % 18) as usize].0 } else { DRIVERS[(case.mode % 18 - 8) as usize] }, "nodes": case.raw.len()}));
                 }
